@@ -2642,6 +2642,7 @@ func (s *swamp) CloneAndDeleteExpiredTreasures(howMany int32) ([]treasure.Treasu
 
 	// shift the expired treasures from the swamp
 	shiftedTreasures := s.expirationTimeBeaconASC.ShiftExpired(int(howMany))
+	verifhook.Point("swamp.shiftExpired.selected", int64(len(shiftedTreasures)))
 
 	// delete the shifted treasures from the other indexes
 	for _, d := range shiftedTreasures {
@@ -2725,6 +2726,7 @@ func (s *swamp) CloneAndDeleteMatchingTreasures(beaconType BeaconType, order Bea
 	}
 
 	shiftedTreasures, capReached := bcn.ShiftMatching(int(howMany), predicate, capPredicate, int(capMax))
+	verifhook.Point("swamp.shiftMatching.selected", int64(len(shiftedTreasures)))
 
 	// Drop shifted treasures from every sibling index — same as
 	// CloneAndDeleteExpiredTreasures. Permanent delete (shadowDelete=false).
